@@ -19,7 +19,7 @@ import (
 // BuildGenesis executes the genesis state on a scratch application to obtain state root, event root and
 // validators hash (what Application.GenerateGenesisBlock does).
 func BuildGenesis(p *ChainParams, timestamp uint32) (*blockchain.Block, error) {
-	g := blockchain.NewGenesisBlock(0, timestamp, bytes.Repeat([]byte{0}, 32), blockchain.BlockAssets{})
+	g := blockchain.NewGenesisBlock(p.GenesisHeight, timestamp, bytes.Repeat([]byte{0}, 32), blockchain.BlockAssets{})
 	g.Init()
 	stateDB, err := db.NewInMemoryDB()
 	if err != nil {
